@@ -130,8 +130,15 @@ func mutate(r *rand.Rand, s *Spec, giant bool) []mut {
 
 	ops := []op{
 		// GUID table
-		{3, func() mut { v := ordinary(r, size); s.FooterSz = int(uint16(v.v)); return mut{"tbl.footer.size", v.name} }},
-		{1, func() mut { s.FooterSz = tableLen + []int{-1, 1, -18, 18, 17, -17}[r.IntN(6)]; return mut{"tbl.footer.size", "len+-k"} }},
+		{3, func() mut {
+			v := ordinary(r, size)
+			s.FooterSz = int(uint16(v.v))
+			return mut{"tbl.footer.size", v.name}
+		}},
+		{1, func() mut {
+			s.FooterSz = tableLen + []int{-1, 1, -18, 18, 17, -17}[r.IntN(6)]
+			return mut{"tbl.footer.size", "len+-k"}
+		}},
 		{1, func() mut { s.Footer = guidSevReset; return mut{"tbl.footer.guid", "other"} }},
 		{3, func() mut {
 			e := &s.Entries[r.IntN(len(s.Entries))]
@@ -177,7 +184,11 @@ func mutate(r *rand.Rand, s *Spec, giant bool) []mut {
 			}
 			return mut{"tbl.entries", "many"}
 		}},
-		{2, func() mut { v := ordinary(r, size); s.setOff(guidSevReset, uint32(v.v)); return mut{"tbl.reset.addr", v.name} }},
+		{2, func() mut {
+			v := ordinary(r, size)
+			s.setOff(guidSevReset, uint32(v.v))
+			return mut{"tbl.reset.addr", v.name}
+		}},
 		// SEV metadata
 		{6, func() mut { v := ordinary(r, size); s.setOff(guidSevOff, uint32(v.v)); return mut{"sev.off", v.name} }},
 		{2, func() mut {
@@ -227,7 +238,13 @@ func mutate(r *rand.Rand, s *Spec, giant bool) []mut {
 			return mut{"sev.sec.len", v.name}
 		}},
 		{2, func() mut { v := ordinary(r, size); pickSev().Kind = uint32(v.v); return mut{"sev.sec.kind", v.name} }},
-		{1, func() mut { x := pickSev(); sev.Secs = append(sev.Secs, *x); sev.Cnt++; sev.Len += 12; return mut{"sev.sec", "duplicate"} }},
+		{1, func() mut {
+			x := pickSev()
+			sev.Secs = append(sev.Secs, *x)
+			sev.Cnt++
+			sev.Len += 12
+			return mut{"sev.sec", "duplicate"}
+		}},
 		{1, func() mut { // two sections whose 32-bit end wraps
 			sev.Secs = append(sev.Secs, Sec12{0xfffff000, 0x2000, secUnmeasured})
 			sev.Cnt++
@@ -261,7 +278,12 @@ func mutate(r *rand.Rand, s *Spec, giant bool) []mut {
 			tdx.Len += uint32(32 * n)
 			return mut{"tdx.secs", "many"}
 		}},
-		{2, func() mut { _, x := pickTdx(); v := ordinary(r, size); x.DataOff = uint32(v.v); return mut{"tdx.sec.dataoff", v.name} }},
+		{2, func() mut {
+			_, x := pickTdx()
+			v := ordinary(r, size)
+			x.DataOff = uint32(v.v)
+			return mut{"tdx.sec.dataoff", v.name}
+		}},
 		{2, func() mut {
 			_, x := pickTdx()
 			v := ordinary(r, size)
@@ -272,7 +294,12 @@ func mutate(r *rand.Rand, s *Spec, giant bool) []mut {
 			}
 			return mut{"tdx.sec.datasize", v.name}
 		}},
-		{4, func() mut { _, x := pickTdx(); v := wideAddr(r, size); x.Base = v.v; return mut{"tdx.sec.base", v.name} }},
+		{4, func() mut {
+			_, x := pickTdx()
+			v := wideAddr(r, size)
+			x.Base = v.v
+			return mut{"tdx.sec.base", v.name}
+		}},
 		{6, func() mut {
 			k, x := pickTdx()
 			v := ordinary(r, size)
@@ -281,11 +308,22 @@ func mutate(r *rand.Rand, s *Spec, giant bool) []mut {
 			}
 			return setSize(k, x, v)
 		}},
-		{2, func() mut { _, x := pickTdx(); v := ordinary(r, size); x.Type = uint32(v.v); return mut{"tdx.sec.type", v.name} }},
+		{2, func() mut {
+			_, x := pickTdx()
+			v := ordinary(r, size)
+			x.Type = uint32(v.v)
+			return mut{"tdx.sec.type", v.name}
+		}},
 		{1, func() mut { _, x := pickTdx(); x.Type = uint32(r.IntN(5)); return mut{"tdx.sec.type", "0..4"} }},
 		{1, func() mut { _, x := pickTdx(); x.Attr = r.Uint32(); return mut{"tdx.sec.attr", "rand32"} }},
 		{1, func() mut { _, x := pickTdx(); x.Attr ^= 1; return mut{"tdx.sec.attr", "extend-flip"} }},
-		{1, func() mut { _, x := scratch(); tdx.Secs = append(tdx.Secs, *x); tdx.Cnt++; tdx.Len += 32; return mut{"tdx.sec", "duplicate"} }},
+		{1, func() mut {
+			_, x := scratch()
+			tdx.Secs = append(tdx.Secs, *x)
+			tdx.Cnt++
+			tdx.Len += 32
+			return mut{"tdx.sec", "duplicate"}
+		}},
 		// whole image
 		{2, func() mut {
 			region := [][2]int{{sev.Pos, 16 + 12*len(sev.Secs)}, {tdx.Pos, 32 + 32*len(tdx.Secs)}, {tableStart, tableLen}}[r.IntN(3)]
